@@ -145,7 +145,11 @@ def run_job(target, case, opts=None):
             # an element-wise closure (comprehension over a symbolic sequence) evaluated lazily by a postcondition raised:
             # some element of the sequence makes the real code raise on this path -- not decided here, the raising path
             # itself is explored separately (branch on the same condition inside the function)
-            if getattr(e, "array_div", False) and outcome is not None and outcome[0] == "return":
+            if getattr(e, "array_div", False) and ctr.zero_divisor_outside:
+                out["cut_paths"] += 1
+                ctx.note("paths on which a result element divides by zero are outside the contract of "
+                         f"{ctr.qualname}: {ctr.zero_divisor_outside}")
+            elif getattr(e, "array_div", False) and outcome is not None and outcome[0] == "return":
                 # the raising "element" is a zero divisor inside a numpy array expression of the RESULT: numpy returns inf / nan
                 # there (no exception), which no clause of a contract over finite values allows -- an obligation that only an
                 # infeasible path can discharge; its model is the input with the zero divisor
